@@ -50,6 +50,12 @@ def run(prop, tier, seed, replay=None):
         rejects += o.get("rejects", 0)
         if sc["id"] % 577 == 2:
             v.sample({"scenario": sc["id"], "steps": sc["steps"][:12]})
+    if not replay:
+        # the exit path of peer.Run (release of the unchoke count) on a real running torrent deleted with a backlog
+        import p_live
+        live = [{"kind": "lifecycle", "id": len(scen) + k, "steps": [{"op": "Backlog", "stop": "behind"}]} for k in range(3 if tier == "quick" else 30)]
+        p_live.harness(v, prop, live, parallel=3, timeout=90)
+        scen = scen + live
     v.cov["traces_validated_against_impl"] = len(scen)
     v.cov["evaluations"] = len(scen)
     v.cov["distinct_nontrivial"] = len({json.dumps(s["steps"], sort_keys=True) for s in scen})
